@@ -209,6 +209,24 @@ def assign_targets(unode):
     return out
 
 
+class _WriteOnly:
+    """An output that can only be written to (a pipe, a file opened "wb")."""
+
+    def __init__(self):
+        import io as _io2
+
+        self._b = _io2.BytesIO()
+
+    def write(self, data):
+        return self._b.write(data)
+
+    def tell(self):
+        return self._b.tell()
+
+    def value(self):
+        return self._b.getvalue()
+
+
 def judge_state(ctx, case, cfgd, cfg, unode, U, u, shadow, viol, step):
     """All members must equal the model's parse of the shadow buffer; dumps() must equal it on data bits."""
     try:
@@ -250,6 +268,13 @@ def judge_state(ctx, case, cfgd, cfg, unode, U, u, shadow, viol, step):
         n_ = u.write(s_)
         tail_ = s_.getvalue()[p_:]
         arr_ = U[2]([u, u]).dumps()
+        # ... and writing only writes: onto bytes that are there already, and to a sink that cannot be read
+        f_ = _io.BytesIO(b"\xff" * (len(d) + 3))
+        u.write(f_)
+        over_ = f_.getvalue()[:len(d)]
+        w_ = _WriteOnly()
+        u.write(w_)
+        sink_ = w_.value()
     except Exception as e:  # noqa: BLE001
         viol("dump", f"union-write-away-from-position-0-raises:{type(e).__name__}", step=step, error=lib.exc_sig(e))
         return False
@@ -257,6 +282,10 @@ def judge_state(ctx, case, cfgd, cfg, unode, U, u, shadow, viol, step):
     if tail_ != d or n_ != len(d) or arr_ != d + d:
         viol("dump", "union-written-behind-other-bytes-or-as-array-element-differs-from-its-dump", step=step, alone=d,
              at_position=p_, written=tail_, returned=n_, as_array_of_two=arr_)
+        return False
+    if over_ != d or sink_ != d:
+        viol("dump", "union-write-depends-on-what-the-output-stream-holds", step=step, alone=d, over_ff_bytes=over_,
+             to_write_only_sink=sink_)
         return False
     dm, mask, k1 = model.dump_full(unode, want, cfg)
     diffs = engine.bits_differ(d, bytes(shadow), mask)
